@@ -112,6 +112,9 @@ cdef class LegacyRecordBatch:
         return self._main_record.offset + 1
 
     def validate_crc(self):
+        assert self._decompressed == 0, \
+            "Validate should be called before iteration"
+
         cdef:
             unsigned long crc = 0
             char * buf
